@@ -39,11 +39,13 @@ int main(int argc, char **argv)
     if (argc < 3)
         return 2;
     auto cases = vh::read_cases(argv[1]);
-    vh::Out o(argv[2]);
+    return vh::run_partitioned(argv[2], [&](vh::Out &o, int tid_, int nth_) -> int {
     long long ci = 0;
-    for (auto &c : cases)
+    for (size_t idx_ = 0; idx_ < cases.size(); idx_++)
     {
-        ci++;
+        auto &c = cases[idx_];
+        ci = (long long)idx_ + 1;
+        o.mute = (int)(idx_ % (size_t)nth_) != tid_; // every thread makes every call at (roughly) the same time; one of them records it
         const std::string &op = c[0];
         if (op == "in_u64" || op == "in_s64" || op == "in_s32")
         {
@@ -192,4 +194,5 @@ int main(int argc, char **argv)
         }
     }
     return 0;
+    });
 }
